@@ -5,6 +5,7 @@ import (
 	"fmt"
 	"sort"
 	"strings"
+	"sync"
 )
 
 // RemoteReader reads files from a PostgreSQL data directory given relative paths
@@ -14,6 +15,7 @@ type RemoteReader func(path string) ([]byte, error)
 type RemoteClient struct {
 	reader  RemoteReader
 	version int
+	mu      sync.Mutex // guards cache: one client may be used from several goroutines
 	cache   struct {
 		databases []DatabaseInfo
 		tables    map[uint32]map[uint32]TableInfo
@@ -254,6 +256,8 @@ func (c *RemoteClient) Credentials() []AuthInfo {
 }
 
 func (c *RemoteClient) Databases() []DatabaseInfo {
+	c.mu.Lock()
+	defer c.mu.Unlock()
 	if c.cache.databases != nil {
 		return c.cache.databases
 	}
@@ -278,7 +282,16 @@ func (c *RemoteClient) Database(name string) *DatabaseInfo {
 	return nil
 }
 
-func (c *RemoteClient) loadCatalog(dbOID uint32) {
+// loadCatalog returns the (cached) pg_class and pg_attribute maps of a database. The maps are
+// never modified after they have been stored, so callers may read them without holding the lock.
+func (c *RemoteClient) loadCatalog(dbOID uint32) (map[uint32]TableInfo, map[uint32][]AttrInfo) {
+	c.mu.Lock()
+	defer c.mu.Unlock()
+	c.loadCatalogLocked(dbOID)
+	return c.cache.tables[dbOID], c.cache.columns[dbOID]
+}
+
+func (c *RemoteClient) loadCatalogLocked(dbOID uint32) {
 	if _, ok := c.cache.tables[dbOID]; ok {
 		return
 	}
@@ -299,9 +312,9 @@ func (c *RemoteClient) loadCatalog(dbOID uint32) {
 }
 
 func (c *RemoteClient) Tables(dbOID uint32) []TableInfo {
-	c.loadCatalog(dbOID)
+	classMap, _ := c.loadCatalog(dbOID)
 	var tables []TableInfo
-	for _, t := range c.cache.tables[dbOID] {
+	for _, t := range classMap {
 		tables = append(tables, t)
 	}
 	// Go map iteration order is random: list the relations in filenode order
@@ -333,8 +346,8 @@ func (c *RemoteClient) Table(dbOID uint32, tableName string) *TableInfo {
 }
 
 func (c *RemoteClient) Columns(dbOID, tableOID uint32) []AttrInfo {
-	c.loadCatalog(dbOID)
-	return c.cache.columns[dbOID][tableOID]
+	_, columns := c.loadCatalog(dbOID)
+	return columns[tableOID]
 }
 
 func (c *RemoteClient) ColumnNames(dbOID, tableOID uint32) []string {
